@@ -1,3 +1,6 @@
 SPECIFICATION Spec
+CONSTANTS
+  MaxLen = 3
+  NNames = 3
 INVARIANT NoTruncation
 CHECK_DEADLOCK FALSE
